@@ -40,6 +40,7 @@ type PropCfg struct {
 	Assumptions []string   `json:"assumptions"`
 	Outside     []string   `json:"outside"`
 	ExtraNoop   []string   `json:"extra_noop"`
+	ClassActs   []string   `json:"class_actions"` // action kinds that distinguish finding classes (default: all)
 	SolverMode  string     `json:"solver_mode"` // "fresh": non-incremental queries (arithmetic kernels)
 }
 
@@ -70,9 +71,20 @@ func signatureOf(prop string, entry string, v *Violation) string {
 // classOf is the coarse class used to match known findings: label only plus
 // the set of action kinds (so a different assertion or a different kind of
 // schedule is a different finding).
-func classOf(prop string, v *Violation) string {
+func classOf(prop string, v *Violation, only []string) string {
 	set := map[string]bool{}
 	for _, a := range v.Actions {
+		if only != nil {
+			keep := false
+			for _, o := range only {
+				if o == a {
+					keep = true
+				}
+			}
+			if !keep {
+				continue
+			}
+		}
 		set[a] = true
 	}
 	return fmt.Sprintf("%s|%s|{%s}", prop, v.Label, strings.Join(sortedSet(set), ","))
@@ -188,7 +200,7 @@ func checkMain(args []string) int {
 	exit := 0
 	nViol := 0
 	var inconclusive []string
-	for _, ec := range pc.Entries {
+	for ei, ec := range pc.Entries {
 		if onlyEntry != "" && ec.Name != onlyEntry {
 			continue
 		}
@@ -201,6 +213,7 @@ func checkMain(args []string) int {
 			continue
 		}
 		e := newEngine(prog, pkg, []string{"z3", "-in"})
+		e.stopOnViol = 5000
 		e.extraNoop = pc.ExtraNoop
 		e.solverFresh = pc.SolverMode == "fresh" || pc.SolverMode == "int-fresh"
 		e.solverInt = pc.SolverMode == "int" || pc.SolverMode == "int-fresh"
@@ -269,14 +282,19 @@ func checkMain(args []string) int {
 		}
 		// violations: dedupe by signature, replay, match against known findings
 		seen := map[string]bool{}
+		perClass := map[string]int{}
 		for _, v := range res.Violations {
 			sig := signatureOf(id, ec.Name, v)
 			if seen[sig] {
 				continue
 			}
 			seen[sig] = true
-			cv := &confirmedViolation{V: v, Sig: sig, Class: classOf(id, v)}
-			rp, err := writeReplay(verif, id, ec.Name, v, len(oc.Confirmed)+len(oc.Unconfirmd), params)
+			cv := &confirmedViolation{V: v, Sig: sig, Class: classOf(id, v, pc.ClassActs)}
+			perClass[cv.Class]++
+			if perClass[cv.Class] > 2 {
+				continue // two replayed representatives per class are enough
+			}
+			rp, err := writeReplay(verif, id, fmt.Sprintf("%s-e%d", ec.Name, ei), v, len(oc.Confirmed)+len(oc.Unconfirmd), params)
 			if err != nil {
 				oc.Unconfirmd = append(oc.Unconfirmd, sig+": cannot write replay: "+err.Error())
 				continue
